@@ -5,9 +5,11 @@ V = os.path.dirname(os.path.dirname(os.path.abspath(__file__)))
 ap = argparse.ArgumentParser()
 ap.add_argument("replay"); ap.add_argument("id"); ap.add_argument("status"); ap.add_argument("title")
 ap.add_argument("--commit"); ap.add_argument("--class-scope", action="store_true"); ap.add_argument("--analysis", default="")
+ap.add_argument("--file", default="known_findings.json")
 ap.add_argument("--more", nargs="*", default=[], help="more replay files whose witnesses are listed under the same entry")
 a = ap.parse_args()
-P = os.path.join(V, "known_findings.json")
+P = os.path.join(V, a.file)
+os.makedirs(os.path.dirname(P), exist_ok=True)
 data = json.load(open(P)) if os.path.exists(P) else {"findings": []}
 r = json.load(open(a.replay))
 wits = [r["witness"]] + [json.load(open(m))["witness"] for m in a.more]
